@@ -210,7 +210,7 @@ PROPS["C07"] = {
              "simulated UDP with the real miekg exchange and timeouts, handshake on a clean path, then concurrent writes both ways under datagram loss / duplication / reordering / late delivery / "
              "replay of old queries, classes clean, isolated-loss (at least 8 fault-free deliveries between faults) and heavy (which may include path outages of 8-40 s, long enough for a Write to fail, after which the writer carries on from the accepted count), then a fault-free drain; non-trivial = the run reached its final "
              "judgement; distinct = schedule shapes"),
-    "probes": ["queue_exchanges", "conn_bytes_moved", "many_fragment_writes", "sequence_wrap_crossed", "sequence_wrap_region", "fault_query_lost", "fault_answer_lost", "fault_query_dup",
+    "probes": ["queue_exchanges", "conn_bytes_moved", "many_fragment_writes", "runs_with_concurrent_duplicates", "sequence_wrap_crossed", "sequence_wrap_region", "fault_query_lost", "fault_answer_lost", "fault_query_dup",
                "fault_old_query_replayed", "fault_late_answer", "fault_dgram_loss", "fault_dgram_dup", "fault_delay", "fault_outage"],
     "technique": "deterministic simulation: seeded search over per-exchange fates x writes/reads both ways, sequence wrap via start numbers and long streams, PRF prefix / exactly-once / acknowledged-implies-delivered / absorption / termination oracles",
     "level_text": ("Seeded exploration of fault histories. Every byte read is checked against the position-addressable PRF stream of what the peer's Write calls accepted (gap, repeat and reorder "
